@@ -56,7 +56,7 @@ func c15Sizes(tier string, stack string, rg *vkit.Rand) []int {
 	n := 6
 	hi := 70000
 	if tier == "thorough" {
-		n, hi = 150, 600000
+		n, hi = 400, 600000
 	}
 	for i := 0; i < n; i++ {
 		s = append(s, rg.Intn(hi))
